@@ -14,6 +14,7 @@ package main
 // Part B (c11_frames.go): own-resource frames, step-wise on the real app.
 
 import (
+	"bytes"
 	"fmt"
 	"reflect"
 	"sort"
@@ -268,9 +269,12 @@ func runC11(r *RunCtx) error {
 						vb = &rej
 					}
 					if !rej {
-						if _, pn2 := c11Signers(msg); pn2 != "" {
-							d2 := map[string]interface{}{"type_url": url, "msg": fmt.Sprintf("%+v", msg)}
+						sg2, pn2 := c11Signers(msg)
+						d2 := map[string]interface{}{"type_url": url, "msg": fmt.Sprintf("%+v", msg)}
+						if pn2 != "" {
 							r.Finding("C11/getsigners/undefined-after-validatebasic", url+": ValidateBasic accepts a message whose Creator names no account; its signer is undefined (GetSigners panics)", d2)
+						} else if len(sg2) == 0 {
+							r.Finding("C11/getsigners/accepted-message-needs-no-creator-signature", url+": ValidateBasic accepts a message whose Creator names no account and GetSigners requires no signature for it", d2)
 						}
 					}
 				}
@@ -284,6 +288,12 @@ func runC11(r *RunCtx) error {
 						r.Hist("validatebasic_accepts_5_byte_creator", fmt.Sprint(acc))
 						if acc {
 							shortCreatorAccepted = append(shortCreatorAccepted, strings.TrimPrefix(url, c11Prefix))
+							// ... and that rejection is all that stands between such a message and execution: if GetSigners
+							// returns (instead of panicking) it must still require a signature for the creator
+							if sg, pn2 := c11Signers(msg); pn2 == "" && (len(sg) != 1 || !bytes.Equal(sg[0], []byte{1, 2, 3, 4, 5})) {
+								r.Finding("C11/getsigners/accepted-message-needs-no-creator-signature", fmt.Sprintf("%s: ValidateBasic accepts creator %s and GetSigners returns %d signers without it: in a transaction signed by anybody else this message is executed although the account it names as creator signed nothing", url, short, len(sg)),
+									map[string]interface{}{"type_url": url, "msg": fmt.Sprintf("%+v", msg), "signers": len(sg)})
+							}
 						}
 					}
 				}
